@@ -57,6 +57,52 @@ func main() {
 		fmt.Println(string(js))
 		return
 	}
+	if what == "hist" {
+		// a history of compilations / extractions in ONE process: os.Args[5] = "op:mode:d,b;..." with op in
+		// {build, lean, setup}; one digest (or "error: ...") per step
+		for _, step := range strings.Split(os.Args[5], ";") {
+			f := strings.Split(step, ":")
+			var dd, bb int
+			fmt.Sscanf(f[2], "%d,%d", &dd, &bb)
+			var ccs constraint.ConstraintSystem
+			var err error
+			var text string
+			func() {
+				defer func() {
+					if r := recover(); r != nil {
+						err = fmt.Errorf("panic: %v", r)
+					}
+				}()
+				switch f[0] {
+				case "build":
+					if f[1] == "insertion" {
+						ccs, err = prover.BuildR1CSInsertion(uint32(dd), uint32(bb))
+					} else {
+						ccs, err = prover.BuildR1CSDeletion(uint32(dd), uint32(bb))
+					}
+				case "lean":
+					text, err = prover.ExtractLean(uint32(dd), uint32(bb))
+				}
+			}()
+			if err != nil {
+				digests = append(digests, "error: "+err.Error())
+				continue
+			}
+			h := sha256.New()
+			if ccs != nil {
+				ccs.WriteTo(h)
+			} else {
+				h.Write([]byte(text))
+			}
+			digests = append(digests, hex.EncodeToString(h.Sum(nil)))
+		}
+		out["digests"] = digests
+		it, mb, on := runtime.VerifMapStats()
+		out["map_iterations"], out["map_max_B"], out["seed_on"] = it, mb, on
+		js, _ := json.Marshal(out)
+		fmt.Println(string(js))
+		return
+	}
 	reps := 1
 	if what == "build3" || what == "lean3" {
 		reps = 3
